@@ -438,6 +438,9 @@ func genC11Base(r *Rng) (*Plan, *HistGen) { return genC11BaseMode(r, false) }
 
 // genC11BaseMode with farFuture=true gives every entity an absolute validity that is unexpired both
 // at the simulated clock and at the real clock, so that lane P can also exercise -e.
+// wideC11: set by exploreC11 for the occasional world with a fan-out beyond 64.
+var wideC11 int
+
 func genC11BaseMode(r *Rng, farFuture bool) (*Plan, *HistGen) {
 	g := NewHistGen(r, "C11")
 	g.P.TZ = "UTC"
@@ -463,7 +466,7 @@ func genC11BaseMode(r *Rng, farFuture bool) (*Plan, *HistGen) {
 		}
 		return valRelative(r)
 	}
-	g.AddForest(ForestOpts{MaxEnts: 4, MaxDepth: 3, Mix: KeyMix{EC: 1, Omit: 6}, MaxExts: 1, Aliases: r.Bool(), Dirs: r.Chance(1, 4), Validity: val}, r.Chance(1, 3) && !farFuture)
+	g.AddForest(ForestOpts{Wide: wideC11, MaxEnts: 4, MaxDepth: 3, Mix: KeyMix{EC: 1, Omit: 6}, MaxExts: 1, Aliases: r.Bool(), Dirs: r.Chance(1, 4), Validity: val}, r.Chance(1, 3) && !farFuture)
 	if r.Chance(9, 10) {
 		g.Run(DefaultFlags, "setup")
 	}
@@ -529,7 +532,13 @@ func genC11BaseMode(r *Rng, farFuture bool) (*Plan, *HistGen) {
 
 func exploreC11(t *testing.T, seed uint64, idx int, tier string, sink *Sink) {
 	r := NewRng(Mix(seed, uint64(idx)))
+	wideC11 = 0
+	if idx%50 == 25 {
+		wideC11 = r.Range(65, 120)
+		sink.Cell("wide-forest")
+	}
 	base, _ := genC11Base(r)
+	wideC11 = 0
 	nStrat := 4
 	if tier == "thorough" {
 		nStrat = 6
